@@ -37,7 +37,10 @@ where
         Some(field::Value::Array(field::value::Array::String(values))) => {
             write_string_array_value(writer, values)
         }
-        _ => todo!("unhandled INFO field value: {:?}", value),
+        _ => Err(io::Error::new(
+            io::ErrorKind::InvalidInput,
+            format!("unhandled INFO field value: {value:?}"),
+        )),
     }
 }
 
